@@ -130,7 +130,7 @@ def gen_dataset(rng, n_src, needed, regime, methods, kinds=None):
         sig = [round(rng.uniform(1e-7, 1e-6), 12) if e in tiny else round(rng.uniform(2.0, 8.0), 6) for (_k, e) in pairs]
     else:
         sig = [round(rng.uniform(0.1, 6.0), 6) for _ in pairs]
-    er = [(L, methods[i % len(methods)], rng.randint(0, 50), (kinds[i % len(kinds)] if kinds else rng.choice(['i3', 'sigset'])))
+    er = [(L, methods[i % len(methods)], rng.randint(0, 50), (kinds[i % len(kinds)] if kinds else rng.choice(['i3', 'sigset', 'sigset', 'i3', 'sigprod'])))
           for i, L in enumerate(needed)]
     return {'n_raw': n_raw, 'N': N, 'keep': keep, 'pairs': pairs, 'bkg': bkg, 'sig': sig, 'eratios': er}
 
@@ -148,6 +148,13 @@ def gen_case(ctx, rng, spec=None):
     ns_fixed = spec.get('ns_fixed', False)
     decls = gen_layout(rng, n_src, k_other, needed, fixed_pattern, order, ns_fixed=ns_fixed, on_grid=on_grid,
                         assign=spec.get('assign'))
+    if spec.get('equal_values'):
+        # per-source aliases of one interpolation parameter sitting at the SAME value (e.g. the common seed):
+        # the ratio may evaluate one spline for all sources there, but only exactly there
+        v0 = gen_value(rng, 'off')
+        for d in decls:
+            if d['name'] != 0:
+                d['val'] = v0
     if spec.get('dup'):
         # malformed: a second parameter under an already used local name of source 0
         decls.append({'name': 9, 'fixed': False, 'val': 2.0, 'names': [1] + [None] * (n_src - 1)})
@@ -203,10 +210,12 @@ def gen_case(ctx, rng, spec=None):
         if flo:
             datasets[-1]['gf_field'] = rng.choice(flo)
             ctx.count('global_fitparam_data_field')
+    case_extra = {'fd_h': 2e-6} if spec.get('equal_values') else {}
     case = {'n_src': n_src, 'decs': [round(rng.uniform(-1.2, 1.2), 3) for _ in range(n_src)],
             'weights': [rng.choice([0.5, 1.0, 2.0, 3.0]) for _ in range(n_src)], 'groups': groups, 'n_ds': n_ds,
             'decls': decls, 'datasets': datasets, 'vec': vec, 'regime': regime, 'on_grid': on_grid,
             'needed': needed}
+    case.update(case_extra)
     ctx.count(f'n_src:{n_src}')
     ctx.count(f'n_other_params:{k_other}')
     ctx.count(f'n_datasets:{n_ds}')
@@ -503,7 +512,7 @@ def fd_predicates(ctx, case, W, impl_layout):
     fl = [d for d in case['decls'] if not d['fixed']]
     for i in range(nfl):
         d = fl[i]
-        h = 2e-4 if d['name'] != 0 else 1e-3
+        h = case.get('fd_h', 2e-4) if d['name'] != 0 else 1e-3
         if case['regime'] in ('taylor', 'mixed') and d['name'] == 0:
             h = 1e-5
 
@@ -530,7 +539,7 @@ def fd_predicates(ctx, case, W, impl_layout):
         (v1, g1) = I.evaluate_single(W, j, vec)
         for i in range(nfl):
             d = fl[i]
-            h = 2e-4 if d['name'] != 0 else (1e-5 if case['regime'] in ('taylor', 'mixed') else 1e-3)
+            h = case.get('fd_h', 2e-4) if d['name'] != 0 else (1e-5 if case['regime'] in ('taylor', 'mixed') else 1e-3)
 
             def f1(x, i=i):
                 v = list(vec)
@@ -828,6 +837,22 @@ def corpus_cases(ctx, rng):
                  {'n_src': 3, 'k_other': 3, 'n_needed': 2, 'fixed': [False, True, False], 'order': 3, 'regime': 'stable', 'on_grid': False, 'sobp': True, 'n_ds': 1},
                  {'n_src': 1, 'k_other': 1, 'n_needed': 1, 'fixed': [False], 'order': 1, 'regime': 'taylor', 'on_grid': False}):
         out.append(gen_case(ctx, rng, spec))
+    # round 4: (a) per-source aliases of the interpolation parameter at EQUAL values, probed with a step far below
+    # 1e-5 (seeded C02-7: relative tolerance in the "all sources share gamma" test); (b) a SignalPDFProduct of two
+    # PDF sets interpolated in the same parameter (seeded C02-8: product-rule terms overwritten), shared and alias
+    for spec in ({'n_src': 2, 'k_other': 2, 'n_needed': 1, 'fixed': [False, False], 'order': 0, 'assign': [0, 1], 'n_ds': 1,
+                  'methods': ['linear'], 'kinds': ['i3'], 'equal_values': True},
+                 {'n_src': 3, 'k_other': 2, 'n_needed': 1, 'fixed': [False, False], 'order': 1, 'assign': [0, 1, 1], 'n_ds': 2,
+                  'methods': ['parabola'], 'kinds': ['i3'], 'equal_values': True},
+                 {'n_src': 2, 'k_other': 1, 'n_needed': 1, 'fixed': [False], 'order': 0, 'n_ds': 1,
+                  'methods': ['linear'], 'kinds': ['sigprod']},
+                 {'n_src': 2, 'k_other': 2, 'n_needed': 1, 'fixed': [False, False], 'order': 2, 'assign': [0, 1], 'n_ds': 2,
+                  'methods': ['parabola'], 'kinds': ['sigprod']},
+                 {'n_src': 3, 'k_other': 3, 'n_needed': 2, 'fixed': [False, True, False], 'order': 1, 'n_ds': 1,
+                  'methods': ['linear', 'parabola'], 'kinds': ['sigprod', 'i3']}):
+        spec.update({'regime': 'stable', 'on_grid': False, 'sobp': False, 'gf_field': False})
+        out.append(gen_case(ctx, rng, spec))
+        out[-1]['probe'] = True
     # a floating parameter that only the detector yields read, several sources, parameter-free product ratio
     # (seeded C02-2: the source-weight contribution dropped by an early return), single and multi dataset
     for spec in ({'n_src': 2, 'k_other': 1, 'n_needed': 1, 'fixed': [False], 'order': 0, 'n_ds': 1},
